@@ -33,8 +33,10 @@ ASSUMPTIONS = [
     "accumulation budget as in C01",
     "set_axis and the *_absolute bypass moves are documented to ignore the "
     "transform: they only lower the 'synced' flag",
-    "tracer paths under a transform are judged end-to-end only (their "
-    "per-segment requests are not observable from outside)",
+    "tracer paths under a transform are judged per vertex by a differential "
+    "run: the same request on a second builder without transform gives the "
+    "vertices in builder coordinates (the 9-decimal reference run adds "
+    "2e-9 x norm(M) of slack)",
 ]
 TECHNIQUE = ("model-based property testing (Hypothesis histories) against an "
              "independent 4x4 affine model and the G-code interpreter")
@@ -163,11 +165,18 @@ class Runner:
             return
         if name == "shape":
             before = self.synced
+            p0 = g.position.resolve()
+            start = (float(p0.x), float(p0.y), float(p0.z))
+            rel = g.distance_mode.is_relative
             try:
                 hist.exec_primitive(g, op)
+                rejected = False
             except ValueError:
                 self.cl.add("shape_rejected")
-            s.poll()
+                rejected = True
+            lines = s.poll()
+            if not rejected:
+                self.check_shape_vertices(op, start, rel, lines)
             if before:
                 self.cl.add("tracer_while_synced")
                 self.check_synced(f"after {op!r}")
@@ -247,6 +256,48 @@ class Runner:
                 s.poll()
         if self.synced:
             self.check_synced(f"after {real!r}")
+
+    def check_shape_vertices(self, op, start, rel, lines):
+        """Differential oracle for traced paths under a transform: the same
+        request on a second builder WITHOUT transform gives the vertices in
+        builder coordinates; every emitted word must be the image of the
+        corresponding vertex (absolute) / of the step between vertices
+        (relative) under the model matrix."""
+        from vf import geom
+        ref = Session(dp=9)
+        rg = ref.g
+        rg.set_axis(x=start[0], y=start[1], z=start[2])
+        rg.set_distance_mode("relative" if rel else "absolute")
+        rg.set_direction(self.g.state.direction.value)
+        rg.set_resolution(self.g.state.resolution)
+        ref.poll()
+        try:
+            hist.exec_primitive(rg, dict(op, dir=None, res=self.g.state.resolution))
+        except ValueError:
+            return
+        verts = geom.vertices(ref.poll(), start, rel)
+        moves = [(w, raw) for (w, c, raw) in lines]
+        if len(moves) != len(verts):
+            raise Violation(f"{op!r} under a transform emitted {len(moves)} moves, the same "
+                            f"request without transform {len(verts)}")
+        m, s = self.m, self.s
+        prev = start
+        for i, ((words, raw), v) in enumerate(zip(moves, verts)):
+            for c in v:
+                self.maxc = max(self.maxc, abs(c))
+            exp = m.linear([v[k] - prev[k] for k in range(3)]) if rel else m.apply(v)
+            tol = s.U + self.eps() + Fraction(2e-9 * max(1.0, m.norm()))
+            for w in words:
+                if w.letter in "XYZ":
+                    k = "XYZ".index(w.letter)
+                    if abs(w.value - Fraction(exp[k])) > tol:
+                        raise Violation(
+                            f"{op!r} segment #{i} {raw!r}: word {w!r} but the image of the "
+                            f"{'step' if rel else 'vertex'} {v} under the transform has "
+                            f"{w.letter}={exp[k]!r} (M={m.cur.M.tolist()})")
+            prev = v
+        if not m.is_identity() and len(verts) >= 3:
+            self.cl.add("traced_path_under_transform_per_vertex")
 
     def check_synced(self, where):
         g, s, m = self.g, self.s, self.m
